@@ -1480,6 +1480,43 @@ def np_all(I, st, args, kw, node):
     raise Unsupported("np.all")
 
 
+@ext("numpy.cumsum", "np.cumsum(a)[k] = a[0] + ... + a[k] (prefix sums, T-SUM)")
+def np_cumsum(I, st, args, kw, node):
+    a = arr_of(st, args[0])
+    if a is None or a.ndim != 1:
+        raise Unsupported("cumsum of a non-1-d array")
+    P = T.sums.prefix_fn(st, a)
+    return st.new_arr(Arr(a.shape, lambda k: P(to_z3(k, "int")), "real", prov=("cumsum", a)))
+
+
+@ext("numpy.searchsorted", "np.searchsorted(a, v, side): insertion index in [0, len(a)] keeping a sorted; side='left': a[i-1] < v <= a[i], "
+                           "side='right': a[i-1] <= v < a[i] (a non-decreasing)")
+def np_searchsorted(I, st, args, kw, node):
+    a = arr_of(st, args[0])
+    v = args[1]
+    side = kw.get("side", args[2] if len(args) > 2 else "left")
+    if a is None or a.ndim != 1 or side not in ("left", "right"):
+        raise Unsupported("searchsorted arguments")
+    n = to_z3(a.shape[0], "int")
+
+    def spec(idx, val):
+        val = to_z3(val, "real")
+        below = (lambda x: x < val) if side == "left" else (lambda x: x <= val)
+        return z3.And(idx >= 0, idx <= n, z3.Implies(idx > 0, below(to_z3(a.at(idx - 1), "real"))),
+                      z3.Implies(idx < n, z3.Not(below(to_z3(a.at(idx), "real")))))
+    V = arr_of(st, v)
+    if V is None:
+        idx = fresh_scalar("int", "ss")
+        st.assume(spec(idx, v))
+        return idx
+    if V.ndim != 1:
+        raise Unsupported("searchsorted of n-d values")
+    out = fresh_arr(V.shape, "int", "ss")
+    q = z3.Int(fresh_name("q"))
+    st.assume(z3.ForAll([q], z3.Implies(z3.And(q >= 0, q < to_z3(V.shape[0], "int")), spec(out.at(q), V.at(q))), patterns=[out.at(q)]))
+    return st.new_arr(out)
+
+
 @ext("numpy.dot", "np.dot of two 2-d arrays: (A.B)[a,b] = sum_i A[a,i] B[i,b] (T-SUM three-index prefix sums)")
 def np_dot(I, st, args, kw, node):
     A, B = arr_of(st, args[0]), arr_of(st, args[1])
@@ -1506,7 +1543,7 @@ def np_lse(I, st, args, kw, node):
 @ext("numpy.random.random", "np.random.random()/rand(): a value in [0,1) (ghost input; every value covered)")
 def np_random(I, st, args, kw, node):
     if args:
-        raise Unsupported("random(size)")
+        return np_rand(I, st, list(args[0]) if isinstance(args[0], tuple) else [args[0]], kw, node)
     u = fresh_scalar("real", "u0")
     st.assume(z3.And(u >= 0, u < 1))
     st.ghost.setdefault("draws", [])
